@@ -25,3 +25,13 @@ CLAIMS['C02'] = dict(
        "UnmarshalString/ID/Boolean total on the JSON types; CoerceList: nil->empty, list passed through unchanged, scalar v -> [v]. "
        "All inputs, unbounded. The generated argument/input-object code (args.gotpl, input.gotpl) is covered by the probe-proved family contracts listed in the evidence when present.",
   note=COMMON_NOTE + "strconv parse/format functions trusted to compute the decimal value numval(s). Floats, custom scalars, Omittable and gqlparser's variable coercion are not decided.")
+
+CLAIMS['C08'] = dict(
+  technique="contract-based deductive verification (gocv: WP/symbolic-execution VCs over go/ast of the real functions, typestate ghost variables, SMT-discharged)",
+  text="The hand-rolled JSON string escaper writeQuotedString is proved against a JSON string-token typestate for ALL strings (loop invariant over the "
+       "UTF-8 decoder facts): every source byte is accounted for exactly once, verbatim runs are whole valid UTF-8 sequences needing no escape, every escape "
+       "literal decodes to the rune it replaces (hex digits by arithmetic), invalid bytes become \\ufffd, quotes first and last, no out-of-range slice. "
+       "Integer marshalers write exactly one decimal string whose mathematical value equals the value (IDs quoted); non-finite floats give an error and no output; "
+       "a failing context marshaler yields exactly `null` plus one error; Array/FieldSet writers follow the JSON array/object typestate for any length.",
+  note=COMMON_NOTE + "Assumed: UTF-8 decoder axioms (A-utf8), io.Writer implementations neither panic nor touch gqlgen's heap, strconv formats decimal values. "
+       "Time/Duration/UUID/Map/Any/Omittable and float text round-trip are not decided. The step from the typestate to 'an RFC 8259 parser decodes the original' is checked only by the replay oracle.")
